@@ -5,7 +5,7 @@ Open Scope Z_scope.
 
 Theorem C06_handle_datagram_total : forall C st bytes,
   InvC C st -> C + frag_bytes (subs_of bytes) <= FRAG_CAP ->
-  C07_known_fnset bytes = false -> C06_known_dgram bytes = false ->
+  is_panic (parse_message bytes) = false -> C06_known_dgram bytes = false ->
   exists st' o, handle_datagram st bytes = Ok (st', o) /\ InvC (C + frag_bytes (subs_of bytes)) st' /\
                 length (ps_readers st') = length (ps_readers st).
 Proof. exact handle_datagram_ok. Qed.
